@@ -647,3 +647,134 @@ def check_eof_tests(ctx, rule, scope, allow=None):
                                   fn.where(r), {"path_lines": [fn.line(x) for x in w][:14], "count_locals": sorted(zero), "buffer_assumed_empty": buf_cleared})
     ctx.counts["%s:reader-driven loops" % rule] = n
     return n
+
+
+ENTROPY_SOURCES = ["decode_integer_arith", "decode_int", "decode_iaid", "MQDecoder::decode", "mq_coder::MQDecoder::<'a>::decode"]
+BOUNDED_CONSUMERS = ["read_bits", "read_bit", "read_byte", "read_exact", "Iterator::next", "pop", "pop_front", "consume_char", "read_pdf_line"]
+
+
+def check_entropy_loops(ctx, rule, scope):
+    """loops controlled by a counter (`while decoded < declared_count`) in functions that draw their data from an entropy
+    decoder — a source that never reports end of input — advance that counter, pass a guard on some other loop-carried
+    counter, or consume bounded input on every path back to the header.  Otherwise a crafted stream that keeps decoding
+    "nothing" (an empty height class / an empty strip) spins forever."""
+    facts = ctx.facts
+    n = 0
+    for fid in sorted(scope):
+        fn = facts.fns.get(fid)
+        if fn is None or fn.kind == "Closure":
+            continue
+        if not any(isinstance(c, dict) and L.is_call_to(c, ENTROPY_SOURCES) for b, c, a, d, t, u in fn.calls()):
+            continue
+        g = CF.cfg(fn)
+        fl = FL.flow(fn)
+        k = 0
+        for h, body in sorted(g.loops().items()):
+            t = fn.term(h)
+            if t[0] != "sw" or is_iterator_driven(fn, g, body, h):
+                continue
+            cmpst = [st for st in fn.blocks[h][0] if st[2][0] == "bin" and st[2][1] in ("Lt", "Le", "Gt", "Ge", "Ne")]
+            if not cmpst:
+                continue
+            cands = []
+            for o in (cmpst[-1][2][2], cmpst[-1][2][3]):
+                for l in FL.op_locals(o):
+                    for d in fl.defs.get(l, ()):
+                        if d[0] == "stmt":
+                            rv = fn.blocks[d[1]][0][d[2]][2]
+                            if rv[0] == "use":
+                                p = FL.op_place(rv[1])
+                                if p and not p[1]:
+                                    cands.append(p[0])
+            ctrs = [c for c in set(cands) if any(d[0] == "stmt" and d[1] in body for d in fl.defs.get(c, ()))]
+            if not ctrs or not any(fn.term(b)[0] == "call" and L.is_call_to(fn.term(b)[1], ENTROPY_SOURCES) for b in body):
+                continue
+            k += 1
+            n += 1
+            key = "%s:counter-loop#%d:progress" % (L.short(fid), k)
+            writes = set(d[1] for c in ctrs for d in fl.defs.get(c, ()) if d[0] == "stmt" and d[1] in body)
+            cons = set(b for b in body if fn.term(b)[0] == "call" and L.is_call_to(fn.term(b)[1], BOUNDED_CONSUMERS))
+            other_guards = set(counter_guard_blocks(fn, g, body)) - {h}
+            harmless_edges = set()
+            # further guards: a branch (other than the header) on an ordered comparison that involves the controlling
+            # counter itself (`if decoded >= count { break }` inside a nested loop), or that compares some other counter
+            # incremented by a constant inside the loop with a loop-invariant bound (`empty_classes > declared`)
+            incs = set()
+            for b2 in body:
+                for st in fn.blocks[b2][0]:
+                    rv = st[2]
+                    if rv[0] == "bin" and rv[1].startswith("Add") and (rv[2][0] == "k" or rv[3][0] == "k"):
+                        for o in (rv[2], rv[3]):
+                            incs.update(FL.op_locals(o))
+            for b2 in body:
+                if b2 == h or fn.term(b2)[0] != "sw":
+                    continue
+                for st in fn.blocks[b2][0]:
+                    rv = st[2]
+                    if rv[0] == "bin" and rv[1] in ("Lt", "Le", "Gt", "Ge"):
+                        roots_ = set()
+                        for o in (rv[2], rv[3]):
+                            for l in FL.op_locals(o):
+                                roots_.add(l)
+                                for d in fl.defs.get(l, ()):
+                                    if d[0] == "stmt" and fn.blocks[d[1]][0][d[2]][2][0] == "use":
+                                        p_ = FL.op_place(fn.blocks[d[1]][0][d[2]][2][1])
+                                        if p_ and not p_[1]:
+                                            roots_.add(p_[0])
+                        if roots_ & (incs - set(ctrs)):
+                            other_guards.add(b2)
+                        elif roots_ & set(ctrs):
+                            # a test of the controlling counter itself: only its "count reached" edge is harmless (it leads
+                            # to the header's exit); the other edge must still make progress
+                            def side(o):
+                                ls = set(FL.op_locals(o))
+                                for l in list(ls):
+                                    for d in fl.defs.get(l, ()):
+                                        if d[0] == "stmt" and fn.blocks[d[1]][0][d[2]][2][0] == "use":
+                                            p_ = FL.op_place(fn.blocks[d[1]][0][d[2]][2][1])
+                                            if p_ and not p_[1]:
+                                                ls.add(p_[0])
+                                return bool(ls & set(ctrs))
+                            te, fe = L.bool_edges(fn, st[1][0])
+                            left = side(rv[2])
+                            reached_when_true = (rv[1] in ("Ge", "Gt")) if left else (rv[1] in ("Le", "Lt"))
+                            harmless_edges.update(te if reached_when_true else fe)
+            latches = [s for s, hh in g.back_edges() if hh == h]
+            outside = set(range(len(fn.blocks))) - set(body)
+            w = g.path(h, latches, avoid_blocks=writes | outside | cons | other_guards, avoid_edges=harmless_edges)
+            if w is not None and w != [h]:
+                # collections that are filled exactly where the counter advances (`symbols.push(..); decoded += 1`) and created
+                # inside the loop are empty on any path that avoids the counter's writes: evaluate their is_empty()/len() (P9b)
+                tied = set()
+                for b2 in body:
+                    t2 = fn.term(b2)
+                    if t2[0] == "call" and L.is_call_to(t2[1], ["Vec::<T, A>::push"]):
+                        r2 = L.recv_of(fn, t2[2])
+                        if r2 and not r2[1] and any(g.dominates(b2, wb) or g.dominates(wb, b2) for wb in writes):
+                            created_in = any(d[0] == "call" and d[1] in body and L.is_call_to(fn.term(d[1])[1], ["Vec::<T>::new", "new", "with_capacity"])
+                                             for d in fl.defs.get(r2[0], ()))
+                            if created_in:
+                                tied.add(r2[0])
+                if tied:
+                    def cv(b3, t3):
+                        c3 = t3[1]
+                        if isinstance(c3, dict) and L.is_call_to(c3, ["is_empty", "len"]):
+                            r3 = L.recv_of(fn, t3[2])
+                            if r3 and r3[0] in tied:
+                                return True if L.short(c3.get("p") or "") == "is_empty" else 0
+                        return None
+                    reach = CF.reachable_assuming(fn, cv, start=h, avoid=writes | outside | cons | other_guards, avoid_edges=harmless_edges)
+                    hit = [l for l in latches if l in reach and l != h]
+                    if not hit:
+                        w = None
+            if w is None or w == [h]:
+                ctx.ok(rule, key, "every path back to the header advances the counter, passes another counter's bound or consumes bounded input",
+                       fn.where(h))
+            else:
+                ctx.violation(rule, key, "the loop at %s runs while a counter is below a declared count and draws its data from an entropy "
+                              "decoder (which never runs out of input), yet a path back to its header — line(s) %s — neither advances that "
+                              "counter nor passes any other bound: a crafted stream that keeps decoding an empty class / strip makes the "
+                              "decoder spin forever" % (fn.where(h), sorted(set(fn.line(x) for x in w))[:10]), fn.where(h),
+                              {"path_lines": [fn.line(x) for x in w][:14]})
+    ctx.counts["%s:entropy-driven counter loops" % rule] = n
+    return n
